@@ -182,8 +182,9 @@ func (p *PostingsList) iterator(includeFreq, includeNorm, includeLocs bool,
 		return rv, nil
 	}
 
-	// "general" encoding, check if empty
-	if p.postings == nil {
+	// "general" encoding, check if empty; a reused list that was last
+	// initialised by the empty dictionary (unknown field) has no segment
+	if p.postings == nil || p.sb == nil {
 		return rv, nil
 	}
 
